@@ -750,3 +750,52 @@ Example embedded_verbatim_nonvacuous :
   known_noncanonical_byron data = false /\
   embedded_decode data = Ok (Ptr 1 (KeyHash (repeat 9 28)) (mkPtr 128 2 3)).
 Proof. cbv zeta. split; [repeat constructor|]. repeat split; vm_compute; reflexivity. Qed.
+
+(* ================= Byron truncation at the Address level ================= *)
+Theorem strict_rejects_truncation_byron ig b k : wf_byron b -> (k < length (to_bytes (Byron b)))%nat ->
+  from_bytes_internal ig (firstn k (to_bytes (Byron b))) = Err.
+Proof.
+  intros Hwf Hk. pose proof (byron_rejects_truncation crc32 crc32_range b k Hwf Hk) as T.
+  cbn [to_bytes] in *. destruct (byron_encode_head crc32 b) as [tl Htl]. rewrite Htl in *.
+  destruct k as [|k]; [reflexivity|]. cbn [firstn] in *. rewrite from_bytes_internal_byron, T. reflexivity.
+Qed.
+
+(* ================= whatever the parser returns is a well-formed address ================= *)
+Lemma read_cred_wf h data b pos : bytes_ok data -> (pos + 28 <= length data)%nat -> wf_cred (read_cred h data b pos).
+Proof.
+  intros Hok Hl. rewrite read_cred_mk. unfold wf_cred. rewrite cred_bytes_mk. split.
+  - rewrite firstn_length, skipn_length. lia.
+  - apply bytes_ok_firstn, bytes_ok_skipn, Hok.
+Qed.
+
+Theorem parsed_wf ig data a : bytes_ok data -> N.of_nat (length data) < 4611686018427387904 ->
+  from_bytes_internal ig data = Ok a -> wf_address a.
+Proof.
+  intros Hok HL H. destruct data as [|h t]; [discriminate|]. unfold from_bytes_internal in H.
+  assert (Hnet : h mod 16 < 16) by (apply N.mod_lt; lia).
+  destruct (h / 16 <? 4).
+  { destruct (length (h :: t) <? 57)%nat eqn:L; [discriminate|]. apply Nat.ltb_ge in L.
+    destruct ((57 <? length (h :: t))%nat && negb ig); [discriminate|]. injection H as <-.
+    repeat split; auto; apply read_cred_wf; auto; lia. }
+  destruct (h / 16 <? 6).
+  { destruct (length (h :: t) <? 32)%nat eqn:L; [discriminate|]. apply Nat.ltb_ge in L.
+    destruct (decode_pointer (skipn 29 (h :: t))) as [[p off]|] eqn:Ed; [|discriminate].
+    destruct ((29 + off <? length (h :: t))%nat && negb ig); [discriminate|]. injection H as <-.
+    split; [exact Hnet|]. split; [apply read_cred_wf; auto; lia|]. exact (strict_rejects_overflow _ _ _ Ed). }
+  destruct (h / 16 <? 8).
+  { destruct (length (h :: t) <? 29)%nat eqn:L; [discriminate|]. apply Nat.ltb_ge in L.
+    destruct ((29 <? length (h :: t))%nat && negb ig); [discriminate|]. injection H as <-.
+    split; [exact Hnet|]. apply read_cred_wf; auto; lia. }
+  destruct (h / 16 =? 8).
+  { destruct (byron_from_bytes crc32 (h :: t)) as [b| | |] eqn:E; try discriminate. injection H as <-.
+    exact (byron_from_bytes_wf crc32 _ b Hok HL E). }
+  destruct (14 <=? h / 16); [|discriminate].
+  destruct (length (h :: t) <? 29)%nat eqn:L; [discriminate|]. apply Nat.ltb_ge in L.
+  destruct ((29 <? length (h :: t))%nat && negb ig); [discriminate|]. injection H as <-.
+  split; [exact Hnet|]. apply read_cred_wf; auto; lia.
+Qed.
+
+(* so the strict parser is idempotent through the writer: parse, write, parse again = the same value *)
+Theorem reparse_same ig data a : bytes_ok data -> N.of_nat (length data) < 4611686018427387904 ->
+  from_bytes_internal ig data = Ok a -> from_bytes (to_bytes a) = Ok a.
+Proof. intros Hok HL H. apply address_roundtrip. eapply parsed_wf; eassumption. Qed.
